@@ -71,7 +71,27 @@ func c09Alphabet(nsenders int) []appx.Op {
 	return ops
 }
 
+func firstN(s string, n int) string {
+	if len(s) > n {
+		return s[:n] + "…"
+	}
+	return s
+}
+
+// c09WalkOp is the k-th op of the long deterministic walk.
+func c09WalkOp(alphabet []appx.Op, k int) appx.Op {
+	switch {
+	case k%11 == 10:
+		return endblock
+	case k%2 == 0:
+		return alphabet[(k/2*5+1)%15]
+	default:
+		return alphabet[(k*7+3)%(len(alphabet)-1)]
+	}
+}
+
 type c09Replay struct {
+	Walk    int       `json:"walk_steps,omitempty"` // >0: the first Walk ops of the long walk precede Last
 	Seed    int       `json:"seed"`
 	Ops     []appx.Op `json:"ops"`
 	Last    appx.Op   `json:"last"`
@@ -139,6 +159,35 @@ func c09() *report.Check {
 				depth, bound = 5, 2
 			}
 			alphabet := c09Alphabet(5)
+			// long deterministic walks: one fixed history of 2400 steps per genesis in which
+			// every transition is checked under every map order within the bound. This does
+			// not enumerate histories (the BFS below does, to a small depth); it carries the
+			// exhaustive map-order check into states that only long histories reach (large
+			// nonce sets, many eons, many accepted configs).
+			for wi, sd := range seeds[:2] {
+				if (wi+7)%c.NShards != c.Shard {
+					continue
+				}
+				n := buildSeed(w, sd)
+				walkLen := 2400
+				for k := 0; k < walkLen; k++ {
+					// sender 0 is kept busy (every other op) so that per-sender state grows large
+					o := c09WalkOp(alphabet, k)
+					next, choices, msg := c09Transition(w, n, o, bound, c.Stats)
+					c.Stats.Traces++
+					c.Stats.Count("long_walk_transitions", 1)
+					if msg != "" {
+						c.Violation("C09/replicas-diverge-under-map-order/long-walk/"+o.Kind, fmt.Sprintf("seed %q, step %d of the long walk: %s", sd.Name, k, firstN(msg, 1500)),
+							c09Replay{Seed: wi, Walk: k, Last: o, Choices: choices})
+						break
+					}
+					n = next
+					if c.Expired() {
+						c.Stats.Cap("deadline in long walk")
+						break
+					}
+				}
+			}
 			// work units: (seed, partition of the first-level alphabet); each unit is a
 			// complete BFS below its first-level ops (no dedup across units).
 			const parts = 5
@@ -196,6 +245,13 @@ func c09() *report.Check {
 			}
 			w, seeds := c09World()
 			n := buildSeed(w, seeds[rp.Seed])
+			if rp.Walk > 0 {
+				alphabet := c09Alphabet(5)
+				for k := 0; k < rp.Walk; k++ {
+					w.Step(n.a, c09WalkOp(alphabet, k), n.nonce())
+					n.nops++
+				}
+			}
 			for _, o := range rp.Ops {
 				w.Step(n.a, o, n.nonce())
 				n.nops++
